@@ -1438,7 +1438,25 @@ def check_crosstab_merge(prog, rep, m, entry):
     n += 1
     rep.add('Z8', f, entry, 'percentage after merge', f.node.lineno, bool(ok),
             'percentages must be computed once, after all blocks are merged')
-    blk = _view(prog, m.funcs.get('_single_chunk_crosstab'))
+    # the per-block task: what the dask path wraps in `delayed` (a decorated function, `delayed(f)`, `delayed(partial(f, ..))`)
+    blk0 = m.funcs.get('_single_chunk_crosstab')
+    dk = m.funcs.get('_crosstab_dask_numpy')
+    if blk0 is None and dk is not None:
+        from .program import Partial as _Partial
+        cands = []
+        for c_ in calls(dk.node):
+            if short(c_) == 'delayed' and c_.args:
+                t_ = prog.resolve_callable(dk, dk.module, c_.args[0])
+                while isinstance(t_, _Partial):
+                    t_ = t_.target
+                if isinstance(t_, Func):
+                    cands.append(t_)
+            t_ = prog.resolve_callable(dk, dk.module, c_.func)
+            if isinstance(t_, Func) and any('delayed' in norm(d_) for d_ in t_.node.decorator_list):
+                cands.append(t_)
+        cands = [g_ for g_ in cands if any(isinstance(x, ast.For) for x in g_.own_nodes())]
+        blk0 = cands[0] if cands else None
+    blk = _view(prog, blk0)
     if blk is not None:
         bad = [x for x in blk.own_nodes() if isinstance(x, ast.BinOp) and isinstance(x.op, ast.Div)]
         n += 1
@@ -1457,7 +1475,7 @@ def check_crosstab_merge(prog, rep, m, entry):
                 alias[x.targets[0].id] = norm(x.value).replace(' ', '')
         for x in g.own_nodes():
             if isinstance(x, ast.Assign) and isinstance(x.value, ast.BinOp) and isinstance(x.value.op, ast.Mult) and \
-                    norm(x.value.right) == '100' and isinstance(x.value.left, ast.BinOp) and isinstance(x.value.left.op, ast.Div):
+                    const(x.value.right) == 100 and isinstance(x.value.left, ast.BinOp) and isinstance(x.value.left.op, ast.Div):
                 num, den = norm(x.value.left.left).replace(' ', ''), norm(x.value.left.right).replace(' ', '')
                 den = alias.get(den, den)
                 tgt = norm(x.targets[0]).replace(' ', '')
@@ -1506,6 +1524,23 @@ def check_alignment(prog, rep, m, pubname, entry):
                         return True
                     if short(c) == 'rechunk' and vp in norm(c.func.value):
                         return True
+                    # a Python-level helper of the module that is handed both rasters and rechunks the values one to the other's
+                    # chunks on its dask path (`values = _layer_first(zones, values, layer)`)
+                    if isinstance(t, Func) and t.jit is None and prog.same_unit(m, t.module) and t is not pub:
+                        b_ = dict(zip(t.params, [norm(a) for a in c.args]))
+                        b_.update({k.arg: norm(k.value) for k in c.keywords if k.arg})
+                        zq = [p_ for p_, a_ in b_.items() if a_ == zp]
+                        vq = [p_ for p_, a_ in b_.items() if a_ == vp]
+                        if len(zq) == 1 and len(vq) == 1:
+                            for c2 in ast.walk(t.node):
+                                if isinstance(c2, ast.Call) and short(c2) == 'rechunk' and vq[0] in norm(c2.func.value) and \
+                                        any(isinstance(x, ast.Name) and x.id in ({zq[0]} | {n_.targets[0].id for n_ in ast.walk(t.node)
+                                            if isinstance(n_, ast.Assign) and isinstance(n_.targets[0], ast.Name) and zq[0] + '.chunks' in norm(n_.value)} |
+                                            {n_.targets[0].id for n_ in ast.walk(t.node) if isinstance(n_, ast.Assign) and isinstance(n_.targets[0], ast.Name)
+                                             and isinstance(n_.value, ast.Dict)})
+                                            for a2 in c2.args for x in ast.walk(a2)) and not any(
+                                            isinstance(x, ast.Attribute) and x.attr == 'chunksize' for x in ast.walk(t.node)):
+                                    return True
         return False
 
     body = pub.node.body
@@ -1583,11 +1618,17 @@ def check_layer_dim(prog, rep, pub, entry):
     front keeps the other two in their order (they must still line up with the zones raster's (y, x)).  The expression handed
     to `.transpose(*dims)` is folded (consteval) for dims = (a, b, c) and every layer index -3..2."""
     from .consteval import CannotFold, Folder
-    fv = _view(prog, pub)
+    from .backends import callees as _callees
     n = 0
-    for c in calls(fv.node):
-        if short(c) != 'transpose' or not c.args or not isinstance(c.args[0], ast.Starred):
-            continue
+    scopes = [pub] + [g for g in _callees(prog, pub) if isinstance(g, Func) and g.jit is None and not g.is_lambda and
+                      prog.same_unit(pub.module, g.module) and any('layer' in p for p in g.params)]
+    sites = []
+    for sc in scopes:
+        fv_ = _view(prog, sc)
+        for c_ in calls(fv_.node):
+            if short(c_) == 'transpose' and c_.args and isinstance(c_.args[0], ast.Starred):
+                sites.append((sc, fv_, c_))
+    for pub, fv, c in sites:
         arg = c.args[0].value
         lp = next((p for p in pub.params if p == 'layer'), None) or next((p for p in pub.params if 'layer' in p), None)
         if lp is None:
@@ -1768,6 +1809,17 @@ def check_crosstab_keys(prog, rep, m, entry):
         AG = (nodata_params(prog, m.funcs.get('_crosstab_numpy'), 'agg') & set(cn.params)) or {'agg'}
         lookups = tuple(t_ % a_ for a_ in AG for t_ in ('_DEFAULT_STATS[%s]', '_DEFAULT_STATS.get(%s)'))
 
+        def is_lookup(a):
+            """`_DEFAULT_STATS[agg]`, also as the 3-D arm of `<lookup> if <values are 3-D> else None`"""
+            if a is None:
+                return False
+            if norm(a) in lookups:
+                return True
+            if isinstance(a, ast.IfExp):
+                arms = [a.body, a.orelse]
+                return any(norm(x) in lookups for x in arms) and all(norm(x) in lookups or (isinstance(x, ast.Constant) and x.value is None) for x in arms)
+            return False
+
         def feeds(fn, depth):
             """does fn hand the `agg` lookup to the 3-D per-zone routine (directly or through one helper's parameter)?"""
             env = straightline_env(fn.node.body)
@@ -1780,14 +1832,14 @@ def check_crosstab_keys(prog, rep, m, entry):
                     a = b.get(h.params[-1]) if b else (c.args[-1] if c.args else None)
                     if isinstance(a, ast.Name) and a.id in env:
                         a = env[a.id]
-                    if a is not None and norm(a) in lookups:
+                    if is_lookup(a):
                         return True
                 elif depth > 0 and b:
                     # a helper that forwards one of its parameters to the per-zone routine
                     for p, a in b.items():
                         if isinstance(a, ast.Name) and a.id in env:
                             a = env[a.id]
-                        if norm(a) in lookups and forwards(h, p):
+                        if is_lookup(a) and forwards(h, p):
                             return True
             return False
 
